@@ -238,9 +238,19 @@ impl<T> UnboundedSender<T> {
         self.0.chan().closed_for_send()
     }
 }
+pub struct UnboundedRecvFut<'a, T>(&'a mut UnboundedReceiver<T>);
+impl<T> Unpin for UnboundedRecvFut<'_, T> {}
+impl<T> std::future::Future for UnboundedRecvFut<'_, T> {
+    type Output = Option<T>;
+    fn poll(mut self: std::pin::Pin<&mut Self>, cx: &mut Context<'_>) -> Poll<Option<T>> {
+        (self.0).0.poll_recv(cx)
+    }
+}
 impl<T> UnboundedReceiver<T> {
-    pub async fn recv(&mut self) -> Option<T> {
-        std::future::poll_fn(|cx| self.0.poll_recv(cx)).await
+    /// `async fn` in tokio; a named future here (same call syntax, one coroutine layer less: a
+    /// nested coroutine's state is a union that CBMC cannot constant-fold through).
+    pub fn recv(&mut self) -> UnboundedRecvFut<'_, T> {
+        UnboundedRecvFut(self)
     }
     pub fn poll_recv(&mut self, cx: &mut Context<'_>) -> Poll<Option<T>> {
         self.0.poll_recv(cx)
